@@ -110,11 +110,17 @@ static void do_blk(IWDB db) {
   uint32_t blk; memcpy(&blk, mm + db->addr + DOFF_N0_U4, 4);
   if (!blk) { printf("blk none\n"); kv->fsm.release_mmap(&kv->fsm); return; }
   uint32_t kb; memcpy(&kb, mm + BLK2ADDR(blk) + SOFF_KBLK_U4, 4);
-  struct iwlctx lx = { .db = db, .nlvl = -1 };
-  struct kvblk kbs, *kbp = 0;
-  if (_kvblk_at_mm(&lx, BLK2ADDR(kb), mm, &kbs, &kbp)) printf("blk unreadable\n");
-  else printf("blk %d %d %lld %lld %lld\n", (int) kbs.szpow, (int) kbs.idxsz, (long long) kbs.maxoff,
-              (long long) ((1LL << kbs.szpow) - KVBLK_HDRSZ - kbs.idxsz - kbs.maxoff), (long long) _kvblk_compacted_offset(&kbs));
+  // parsed from the bytes: [szpow:u1, idxsz:u2, 32 x (off:vn, len:vn)]; no static function of iwkv.c is named here
+  const uint8_t *rp = mm + BLK2ADDR(kb);
+  int szpow = rp[0]; unsigned idxsz = rp[1] | (rp[2] << 8);
+  long long maxoff = 0, sum = 0; rp += 3;
+  for (int i = 0; i < KVBLK_IDXNUM; ++i) {
+    int step; long long off; unsigned len;
+    IW_READVNUMBUF64(rp, off, step); rp += step;
+    IW_READVNUMBUF(rp, len, step); rp += step;
+    if (len) { if (off > maxoff) maxoff = off; sum += len; }
+  }
+  printf("blk %d %u %lld %lld %lld\n", szpow, idxsz, maxoff, (1LL << szpow) - KVBLK_HDRSZ - idxsz - maxoff, sum);
   kv->fsm.release_mmap(&kv->fsm);
 }
 
